@@ -32,6 +32,17 @@ static void     ds_note_trigram(void)
   }
 }
 
+/* After a monitor has fired the container is not trusted any more: tearing it down through its own
+ * API could crash or free the wrong things and bury the finding under secondary reports.  The case
+ * abandons it instead and tells LeakSanitizer (when present) that these blocks are deliberate. */
+void        __lsan_ignore_object(const void *p) __attribute__((weak));
+static void ds_abandon(const void *p)
+{
+  if (p != NULL && __lsan_ignore_object) {
+    __lsan_ignore_object(p);
+  }
+}
+
 #define OP(kind)       \
   do {                 \
     ds_op(kind);       \
